@@ -2,6 +2,7 @@ import BycycleModel.ObjMachine
 import BycycleModel.GroupMachine
 import BycycleModel.Pipeline
 import BycycleModel.PipelineAmp
+import BycycleModel.Edges
 /-!
 # The object machine instantiated with the modelled pipeline
 
@@ -25,15 +26,28 @@ structure Recording where
   /-- the dual-threshold detector (amplitude method): its mask for the burst options it is run with and the (min_n_cycles, min_burst_duration) pair that reaches it. -/
   detMask : KV → Option Rat × Option Rat → List Bool
 
-/-- a table of either burst method. -/
+/-- a table of either burst method. `peakSeen` is what the burst-feature functions SEE of a consistency table's centring: they test for a `sample_peak`
+column, so it is `center_extrema == 'peak' and return_samples` (a peak-centred table without sample columns is seen as trough-centred: the known finding). -/
 inductive Table where
-  | cycles (o : PipeOut)
+  | cycles (o : PipeOut) (peakSeen : Bool)
   | amp (o : PipeOutAmp)
   deriving DecidableEq
 
 def Table.samples : Table → List SampleRow
-  | .cycles o => o.samples
+  | .cycles o _ => o.samples
   | .amp o => o.samples
+
+def F.ofOpt : Option Rat → F | some q => .fin q | none => .nan
+
+/-- the rows `recompute_edges` reads and writes, taken from a pipeline table. -/
+def edgeRowsOf (o : PipeOut) : List EdgeRow :=
+  (o.shape.zip (o.feats.zip o.labels)).map fun p =>
+    ⟨p.1.voltRise, p.1.voltDecay, (p.1.period : Rat), p.2.1.ampFraction, p.2.1.monotonicity, F.ofOpt p.2.1.ampConsistency, F.ofOpt p.2.1.periodConsistency, p.2.2⟩
+
+/-- the pipeline table with the two consistency columns and the labels replaced by the recomputed rows; everything else (samples, shape, the other features) is kept. -/
+def withEdges (o : PipeOut) (rows : List EdgeRow) : PipeOut :=
+  { o with feats := (o.feats.zip rows).map fun p => { p.1 with ampConsistency := p.2.ampCons.toFeature, periodConsistency := p.2.perCons.toFeature },
+           labels := rows.map (·.isBurst) }
 
 def lookupD (kv : KV) (k : String) (d : Rat) : Rat := (kv.lookup k).getD d
 
@@ -45,19 +59,27 @@ def cycThreshOf (kv : KV) : CycThresh :=
 
 def centreOf (st : Settings) : Centre := if st.peak then .peak else .trough
 
+/-- `bycycle.burst.recompute_edges(df, thresholds)` on a pipeline table: the transcription `recomputeEdges` with the centring the code sees; an amplitude-method table has
+no consistency columns to recompute (`KeyError`). -/
+def rcPipeline (t : Table) (kv : KV) : Except Err Table :=
+  match t with
+  | .cycles o pk => (recomputeEdges pk (edgeRowsOf o) (cycThreshOf kv)).map fun rows => .cycles (withEdges o rows) pk
+  | .amp _ => .error .keyError
+
+
 /-- `compute_features` as the modelled pipeline of the object's burst method: `pipelineCycles` resp. `pipelineAmp` (the `min_n_cycles` of the burst options and of the
 thresholds, the minimum duration and the fraction threshold with its default are looked up in the stored dictionaries). -/
 def pipelineCf (st : Settings) (r : Recording) : Except Err Table :=
   if st.cycles then
-    (pipelineCycles (centreOf st) r.x (r.pad st.fek) (r.b st.fek (centreOf st)) r.amp (r.bd st.fek) (cycThreshOf st.thresholds)).map .cycles
+    (pipelineCycles (centreOf st) r.x (r.pad st.fek) (r.b st.fek (centreOf st)) r.amp (r.bd st.fek) (cycThreshOf st.thresholds)).map fun o => .cycles o (st.peak && st.returnSamples)
   else
     (pipelineAmp (centreOf st) r.x (r.pad st.fek) (r.b st.fek (centreOf st)) r.amp (r.bd st.fek) (st.burstKwargs.lookup "min_n_cycles") (st.thresholds.lookup "min_n_cycles")
       (st.burstKwargs.lookup "min_burst_duration") (r.detMask st.burstKwargs) (lookupD st.thresholds "burst_fraction_threshold" Slots.ampDefaultThreshold)).map .amp
 
-def pipelineApi (rc : Table → KV → Except Err Table) : Api Recording Table where
+def pipelineApi : Api Recording Table where
   oneD _ := true
   cf := pipelineCf
-  rc := rc
+  rc := rcPipeline
   col _ _ := none
 
 /-- `compute_features_2d(axis=0)` as what C11 proves it to be: the per-signal analysis, position by position (the first error wins). -/
